@@ -91,6 +91,10 @@ def memory_cases():
           ("memory: v1 + v2 concatenated", None, v1 + v2),
           ("memory: v2 followed by a 26-byte entry claiming magic 2", None, v2 + struct.pack(">qi", 7, 14) + bytes([0, 0, 0, 0, 2]) + bytes(9)),
           ("memory: trailing partial entry", None, v2 + v0[:20])]
+    # a fetch response cut at max_bytes: the last entry misses its last k bytes
+    for k in (1, 2, 11, 12, 13, len(v2) - 12, len(v2) - 11):
+        cs.append(("memory: v2 + v2 without its last %d bytes" % k, None, v2 + v2[:len(v2) - k]))
+    cs.append(("memory: v1 + v1 without its last 5 bytes", None, v1 + v1[:-5]))
     return cs
 
 
@@ -104,7 +108,11 @@ def decode_all(impl, data):
     try:
         m = MemoryRecords(bytes(data))
         while True:
+            announced = bool(m.has_next())
             b = m.next_batch()
+            if announced != (b is not None):
+                # has_next() is how the fetcher decides whether a response holds a record at all
+                out.append("has_next() said %s, next_batch() returned %s" % (announced, "None" if b is None else "a batch"))
             if b is None:
                 break
             for r in b:
@@ -139,6 +147,8 @@ def run_case(kind, magic, data):
                 pass
         else:
             c, p = decode_all("c", data), decode_all("py", data)
+            if any(isinstance(x, str) and x.startswith("has_next") for x in c + p):
+                return "has_next() and next_batch() disagree: compiled %r, python %r" % (c[-3:], p[-3:])
             if c != p:
                 return "compiled and pure-Python decoders disagree: compiled %r, python %r" % (c[:6], p[:6])
     except (SystemError, MemoryError) as e:
